@@ -171,9 +171,13 @@ def evaluate_case(pt, case):
     out["entry:Formula.neutron_sld(wavelength)"] = _sld3(f.neutron_sld(wavelength=w))
     out["entry:Formula.neutron_sld(energy)"] = _sld3(f.neutron_sld(energy=e))
     ws = case["ws"]
-    warr = nc.reused_array(ws)
+    if all(float(x) == int(x) for x in ws):
+        ints = [int(x) for x in ws]
+        warr = [ints, tuple(ints), np.array(ints)][len(ints) % 3]       # integers given as integers
+    else:
+        warr = nc.reused_array(ws)
     vec = nc.scat_vectors(nsf.neutron_scattering(f, wavelength=warr), len(ws))
-    if list(warr) != list(ws):
+    if [float(x) for x in warr] != [float(x) for x in ws]:
         out["argument-modified"] = True
     out["vector"] = vec
     out["scalars"] = [scalar(pt, f, x) for x in ws]
@@ -186,6 +190,17 @@ def evaluate_case(pt, case):
     other = _formula(pyside.struct_objs(s, pt.elements), density=rho * 1.75)
     out["natural-keyword-on-object"] = nc.scat_tuple(nsf.neutron_scattering(other, natural_density=nd, wavelength=w))
     out["density-keyword-on-object"] = nc.scat_tuple(nsf.neutron_scattering(other, density=rho, wavelength=w))
+    # the compound as a string, after a formula obtained from the same string (and the same keywords) was
+    # modified by its owner: the string still means what it says
+    try:
+        text = str(_formula(pyside.struct_objs(s, pt.elements)))
+        if _formula(text) == _formula(pyside.struct_objs(s, pt.elements)):
+            mine = _formula(text, density=rho)
+            mine.density = rho * 3.0
+            mine += _formula("Xe")
+            out["string-after-modification"] = nc.scat_tuple(nsf.neutron_scattering(text, density=rho, wavelength=w))
+    except Exception as e:  # noqa
+        out["string-after-modification"] = "raises " + type(e).__name__
     return f, atoms, N, out
 
 
@@ -223,7 +238,8 @@ def gen_case(rng, pools):
     return dict(struct=s, vseed=vseed, density=nc.gen_density(rng), w=nc.gen_wavelength(rng, pools),
                 k=rng.choice([2.0, 0.5, 10.0, 1e-3, 3.7, 0.1, 1.0000001, 123.456, 1e-9, 1e-12, 1e6]),
                 c=rng.choice([2.0, 3.0, 0.5, 10.0, 0.1, 7.0, 1e3, 1e-3, 2.5, 1e-11, 1e-13, 1e9]),
-                ws=[nc.gen_wavelength(rng, pools) for _ in range(rng.randint(1, 6))],
+                ws=([float(rng.randint(1, 20)) for _ in range(rng.randint(1, 6))] if rng.random() < 0.2 else
+                    [nc.gen_wavelength(rng, pools) for _ in range(rng.randint(1, 6))]),
                 variants=variants(random.Random(vseed), s))
 
 
@@ -244,6 +260,9 @@ def judge(run, pt, case, replies):
     rel.append(("natural_density vs density", b, out["natural"], N))
     rel.append(("natural_density= keyword on a Formula object with its own density", b, out["natural-keyword-on-object"], N))
     rel.append(("density= keyword on a Formula object with its own density", b, out["density-keyword-on-object"], N))
+    if "string-after-modification" in out:
+        rel.append(("the compound as a string, after an earlier formula from that string was modified", b,
+                    out["string-after-modification"], N))
     if isinstance(out["vector"], str):
         rel.append(("vector vs scalar", out["scalars"][0], out["vector"], N))
     else:
